@@ -334,8 +334,8 @@ def run_c09(ctx, replay):
 # ----------------------------------------------------------------------------- C32
 
 def run_c32(ctx, replay):
-    mr, mv = (3, 2) if ctx.thorough() else (2, 1)
-    consts = "CONSTANT MaxRole = %d\nCONSTANT MaxVal = %d\n" % (mr, mv)
+    mr, mv, ms = (3, 1, 2) if ctx.thorough() else (2, 1, 1)
+    consts = "CONSTANT MaxRole = %d\nCONSTANT MaxVal = %d\nCONSTANT MaxStr = %d\n" % (mr, mv, ms)
     binary = build(ctx)
     mc = None
     if replay:
@@ -362,8 +362,8 @@ def run_c32(ctx, replay):
         by_ep[s[0]["ep"]] = by_ep.get(s[0]["ep"], 0) + 1
     cov = {
         "states": mc.distinct if mc else 1, "transitions": mc.generated if mc else 1, "exhaustive": bool(mc),
-        "model_constants": "alphabet {0xFF, 'a', 0x00} + empty string; role up to %d bytes, other values/strings up to %d; "
-                           "keys role, empty key, 0xFF-key; protocols 2..5; sizes 8,300,510..514,600; " % (mr, mv) + json.dumps(by_ep, sort_keys=True),
+        "model_constants": "alphabet {0xFF, 'a', 0x00} + empty string; role up to %d bytes, other values up to %d, message strings up to %d; "
+                           "keys role, empty key, 0xFF-key; protocols 2..5; sizes 8,300,510..514,600; " % (mr, mv, ms) + json.dumps(by_ep, sort_keys=True),
         "traces_validated_against_impl": rep.traces, "trace_lines": rep.lines, "divergences": len(rep.diverged),
         "evaluations": rep.lines - rep.traces, "distinct_nontrivial": len(set(json.dumps(s) for s in scheds)),
         "monitor_reports": len(rep.monitors),
